@@ -477,3 +477,6 @@ def tag(line, impl, model):
 
 def exhaustive(tier):
     return True   # all strings up to the tier's length over the 6-symbol alphabet, both modes (every single cut in thorough)
+
+
+KNOWN_MUST_MATCH_MODEL = True   # inside a known finding's region the observation must still equal the model's (which reproduces the listed defect); see lib/vf/run.py
